@@ -731,6 +731,8 @@ def gen_c19(ctx):
             if rng.random() < 0.2: c['emptycol'] = rng.randrange(n)
             if sub in ('gemv', 'gemm'):
                 c['trans'] = rng.choice(['N', 'T', 'C']); c['alpha'] = rng.randrange(5); c['beta'] = rng.randrange(5)
+                if rng.random() < 0.5: c['xzero'] = rng.choice([1, 1, 2, 2, 3, 4])
+                if rng.random() < 0.2: c['yzero'] = 1
                 if sub == 'gemv':
                     # the side the routine scatters to / gathers from gets a non-unit stride only rarely (known finding)
                     c['incx'] = rng.choice([1, 1, 1, 2, -1, -3]); c['incy'] = rng.choice([1, 1, 1, 2, -1, -3])
@@ -864,7 +866,8 @@ PROPS['C11'] = dict(gen=gen_c11, relevant=('C11|',), counters=('nnz',), batch=40
                     assumptions=['at the thresholds themselves (0.1 is not representable) either decision of ?laqgs is accepted'])
 
 # ---- C15 ----
-ARG_TABLE = {'gssv': 9, 'gssvx': 24, 'gstrs': 6, 'gsrfs': 12, 'gscon': 5, 'gsequ': 4, 'trsv': 6, 'gemv': 4}
+EQV = (11, 12, 13, 24, 25, 26)     # violations that set fact/equed themselves: not combined with each other or with an illegal fact
+ARG_TABLE = {'gssv': 9, 'gssvx': 27, 'gstrs': 6, 'gsrfs': 12, 'gscon': 5, 'gsequ': 4, 'trsv': 6, 'gemv': 4}
 
 def gen_c15(ctx):
     rng = ctx.rng
@@ -873,7 +876,7 @@ def gen_c15(ctx):
         for rt, nv in ARG_TABLE.items():
             for v in range(nv):
                 out.append(({'variant': 'asan' if (v % 2 == 0) else 'plain', 'prec': prec}, {'cmd': 'args', 'rt': rt, 'v1': v, 'n': 4 + v % 3, 'seed': 7 + v}))
-            pairs = [(a, b) for a in range(nv) for b in range(a + 1, nv) if not (rt == 'gssvx' and ((a == 1 and b in (11, 12, 13)) or (a in (11, 12, 13) and b in (11, 12, 13))))]
+            pairs = [(a, b) for a in range(nv) for b in range(a + 1, nv) if not (rt == 'gssvx' and ((a == 1 and b in EQV) or (a in EQV and b in EQV)))]
             if ctx.quick:
                 rng.shuffle(pairs); pairs = pairs[:25]
             for a, b in pairs:
@@ -938,7 +941,7 @@ def gen_c08(ctx):
         out.append(({'variant': 'asan' if i % 3 == 0 else 'plain', 'prec': prec}, c))
     return out
 
-H_COUNTERS = ('nops', 'nfact', 'nrefact', 'nsolve', 'queries', 'usepr_kept', 'usepr_changed', 'usepr_undec', 'inbuf_checked', 'allocs')
+H_COUNTERS = ('work_allocs', 'nops', 'nfact', 'nrefact', 'nsolve', 'queries', 'usepr_kept', 'usepr_changed', 'usepr_undec', 'inbuf_checked', 'allocs')
 
 PROPS['C08'] = dict(gen=gen_c08, relevant=('C08|', 'C09|refact', 'C09|first'), counters=H_COUNTERS, batch=15, timeout_case=90.0,
                     nontrivial=lambda r: (r.get('result') or {}).get('nrefact', 0) + (r.get('result') or {}).get('nsolve', 0) >= 1,
@@ -961,7 +964,7 @@ def gen_c14(ctx):
         c['lwfrac'] = rng.choice([0.0, 0.001, 0.01, 0.03, 0.05, 0.08, 0.1, 0.15, 0.2, 0.25, 0.3, 0.35, 0.4, 0.45, 0.5, 0.55, 0.6, 0.7, 0.8, 0.9, 1.0, 1.1, 1.25, 1.5, 2.0])
         if rng.random() < 0.3: c['lwfrac'] = round(rng.random() * 1.3, 4)
         c['ops'] = rng.choice(['F,S0', 'F,S0,R1,S1', 'Q,F,S0', 'F,R0,S0,D,F,S2'])
-        c['nps'] = str(rng.choice([1, 2, 3, 4]))
+        c['nps'] = str(rng.choice([1, 2, 3, 4])); c['lwodd'] = rng.choice([0, 0, 4, 1, 3, 7])
         out.append(({'variant': 'asan', 'prec': prec, 'per_process': True, 'class': 'workspace'}, c))
     # results with a sufficient user workspace match the internally allocated run (1 thread: bitwise)
     NP = 120 if ctx.quick else 2000
@@ -973,6 +976,16 @@ def gen_c14(ctx):
         b = dict(c); b['mem'] = 1; b['lwfrac'] = 1.8; b['pair'] = i
         out.append(({'variant': 'plain', 'prec': prec, 'class': 'pair'}, a))
         out.append(({'variant': 'plain', 'prec': prec, 'class': 'pair'}, b))
+    # sufficient workspace of arbitrary (unaligned) size, several threads, stretched window between a thread carving its
+    # work arrays from the tail and re-aligning them: the work-array monitor checks disjointness of all live arrays
+    NW = 600 if ctx.quick else 10000
+    for i in range(NW):
+        prec = rng.choice(PRECS)
+        c = hist_base(rng, ctx.quick, nmax=60)
+        c['mem'] = 1; c['lwfrac'] = rng.choice([1.3, 1.6, 2.0]); c['lwodd'] = rng.randrange(0, 8)
+        c['ops'] = rng.choice(['F,S0', 'F,S0', 'F,S0,R1,S1'])
+        c['nps'] = str(rng.choice([2, 3, 4, 4, 8])); c['pmode'] = rng.choice([7, 7, 1, 0]); c['pert'] = rng.randrange(1, 1 << 30)
+        out.append(({'variant': 'plain', 'prec': prec, 'class': 'wsmt'}, c))
     # (c) failing allocator behind USER_MALLOC: request k and all later ones fail, k = 1..K
     configs = []
     for prec in PRECS:
@@ -1051,10 +1064,11 @@ PROPS['C14'] = dict(gen=gen_c14, relevant=('C14|', 'C08|reconstruction', 'C08|re
                     timeout_case=20.0, level='fault_enumeration',
                     nontrivial=lambda r: bool(r.get('result')) or bool(r.get('stopped_with_diagnostic')),
                     rule='(a) lwork=-1 queries with sentinel-filled L/U; (b) caller workspace = malloc(lwork) (ASan red zones) for size fractions 0..2 of the query estimate, 1..4 threads, with refactorization and reuse; '
-                    '1-thread runs with sufficient workspace compared bitwise with the internally allocated run; (c) failing allocator behind the documented USER_MALLOC hook: for each configuration a counting run '
+                    '1-thread runs with sufficient workspace compared bitwise with the internally allocated run; 2..8-thread runs with sufficient workspace of unaligned size under a stretched carve/re-align window, '
+                    'every thread\'s work arrays (hook events WORK_ALLOC/WORK_FREE) checked pairwise disjoint while live and inside the buffer, results by the C08 oracles; (c) failing allocator behind the documented USER_MALLOC hook: for each configuration a counting run '
                     'measures K requests and request k and all later ones fail for every k=1..K; distinct = sha1(case); non-trivial = a result or a diagnostic stop was observed; '
                     'allowed outcomes: success (all L/U arrays inside the buffer, oracles pass), info>n, or exit through a library diagnostic; never a sanitizer report, signal, watchdog or silent success',
-                    floors={'failalloc_configs_with_every_request_failed': 3, 'workspace_pairs_compared': 50, 'inbuf_checked': 100})
+                    floors={'failalloc_configs_with_every_request_failed': 3, 'workspace_pairs_compared': 50, 'inbuf_checked': 100, 'work_allocs': 500})
 
 # ---- C17 ----
 def gen_c17(ctx):
@@ -1137,6 +1151,22 @@ def gen_c18(ctx):
                 if pre: c['pre'] = pre
                 k += 1
                 out.append(({'variant': 'asan' if (k % 4 == 0) else 'plain', 'prec': prec, 'per_process': True}, c))
+    # long histories: ~150 assorted complete driver calls (orders 5..44) before the probe; state that is only exhausted or
+    # overwritten after many calls shows here.  Probes are complete expert-driver calls (every output incl. rcond, ferr, berr
+    # is in the digest), many of them because only some inputs are sensitive to a given piece of carried-over state.
+    NL = 1200 if ctx.quick else 12000
+    sweeps = ['fam:rand;dens:0.15;ops:E;nps:1;sweep:150;seed:%d', 'fam:band;ops:E,V;nps:1;sweep:100;seed:%d', 'fam:grid;ops:E,F,S1,D;nps:1;sweep:60;seed:%d;w:2;relax:2',
+              'fam:rand;dens:0.2;vals:hostile;dom:row;ops:E;nps:1;sweep:150;seed:%d']
+    for i in range(NL):
+        c = hist_base(rng, ctx.quick, nmax=44)
+        if rng.random() < 0.3: c['fam'] = 'svd'; c['cond'] = rng.choice([1e3, 1e6, 1e9]); c['n'] = min(c['n'], 30)
+        elif rng.random() < 0.3: c['vals'] = 'hostile'; c['dom'] = 'row'
+        c['ops'] = rng.choice(['E', 'E', 'E', 'V', 'F,S0']); c['nps'] = '1'
+        prec = rng.choice(PRECS)
+        a = dict(c); a['probe'] = 1000 + i
+        b = dict(c); b['probe'] = 1000 + i; b['pre'] = rng.choice(sweeps) % rng.randrange(1, 100000)
+        out.append(({'variant': 'plain', 'prec': prec, 'per_process': True}, a))
+        out.append(({'variant': 'plain', 'prec': prec, 'per_process': True}, b))
     return out
 
 def post_c18(ctx, recs, out):
@@ -1161,8 +1191,9 @@ def cov_c18(ctx, recs):
 PROPS['C18'] = dict(gen=gen_c18, relevant=('C18|', 'C08|reconstruction', 'C08|residual'), counters=H_COUNTERS, batch=1, post=post_c18, coverage_extra=cov_c18, timeout_case=60.0,
                     nontrivial=lambda r: 'pre' in r['case'] and bool(r.get('result')),
                     rule='probe calls (first factorization + solve, or a complete simple/expert driver call; 1 thread, built-in kernels) run in a fresh process and after prefix histories in the same process drawn from a 13-letter '
-                    'alphabet (other sizes and families, refactorization chains, user workspace sufficient/insufficient, singular calls, workspace query, other tuning parameters, 8-thread runs), singly and in pairs; '
-                    'distinct = sha1(case); non-trivial = a prefixed run that returned; oracle: the digest of every output byte (L/U structure and values, permutations, X, info) equals the fresh-process digest',
+                    'alphabet (other sizes and families, refactorization chains, user workspace sufficient/insufficient, singular calls, workspace query, other tuning parameters, 8-thread runs), singly and in pairs, '
+                    'and after long histories of 60-150 assorted complete driver calls; '
+                    'distinct = sha1(case); non-trivial = a prefixed run that returned; oracle: the digest of every output byte (L/U structure and values, permutations, X, info; for driver calls also equed, R, C, rcond, ferr, berr, pivot growth) equals the fresh-process digest',
                     floors={'probe_runs_compared_with_fresh_process': 100},
                     assumptions=['prefix histories in another precision are not exercised: each probe binary links one precision\'s harness (the per-precision static state is disjoint by construction)'])
 
